@@ -38,10 +38,10 @@ def c05_1(ctx, r):
     for n in mc:
         r.check(bool(sw) and dominated_by(ctx, fn, n, sw, ALL_KINDS), "write_results_summary dominates mark_complete", key_of(fn, "mark_complete before summary"), fn.loc(n.stmt),
                 "the completion flag can be set before results.json exists: a reader that sees is_complete finds no (or stale) results", "the results summary is written before it")
-        r.check(not guard_forms(ctx, fn, n), "mark_complete is unconditional in the completion step", key_of(fn, "conditional mark_complete"), fn.loc(n.stmt),
-                f"mark_complete is guarded by {sorted(f for f, p in guard_forms(ctx, fn, n))}: on the other branch the submission never completes")
-        r.check(always_followed_by(ctx, fn, ctx.cfg(fn).entry, [n, ctx.cfg(fn).raise_exit], NORMAL_KINDS), "every normal path of the completion step marks completion", key_of(fn, "path without mark_complete"), fn.loc(),
-                "a normal path through _handle_completion does not mark completion")
+    # every normal path marks completion (through *some* mark_complete call: `if not reports: mark; return` + `reports(); mark` is fine)
+    r.check(always_followed_by(ctx, fn, ctx.cfg(fn).entry, mc + [ctx.cfg(fn).raise_exit], NORMAL_KINDS), "every normal path of the completion step marks completion", key_of(fn, "path without mark_complete"), fn.loc(),
+            "a normal path through _handle_completion does not mark completion" + (f" (mark_complete is guarded by {sorted({f for n in mc for f, p in guard_forms(ctx, fn, n)})})" if any(guard_forms(ctx, fn, n) for n in mc) else ""),
+            "the completion flag is set")
 
 
 @rule(P, "C05.2", "T6", "single completion funnel, outside any loop", min_obligations=4)
@@ -426,3 +426,76 @@ def c05_18(ctx, r):
     from .c10 import c10_2
 
     c10_2(ctx, r)
+
+
+@rule(P, "C05.19", "T2", "completions collected by a round are persisted by that round: no normal return between the sweep and the status update", min_obligations=2)
+def c05_19(ctx, r):
+    """_update_completed_jobs() moves result rows into the consolidated file and hands back the names *once*; the DONE states and the reduced
+    blocker sets they imply reach job_status.json only through _update_status(..., completed_job_names).  A normal return of run() in between
+    (an early `return False` because the queue is full, say) loses them for good - no later round sees those rows as new - so dependents are
+    never released and the submission can only end by forced completion with missing jobs."""
+    run = ctx.fn("HpcSubmitter.run", "C05.19")
+    cfg = ctx.cfg(run)
+    sweeps = [s for s in ctx.sites(run, short="HpcSubmitter._update_completed_jobs")]
+    ups = [s for s in ctx.sites(run, short="HpcSubmitter._update_status")]
+    if len(sweeps) != 1 or not ups:
+        raise AnalysisError("C05.19", f"{len(sweeps)} sweeps and {len(ups)} status updates in HpcSubmitter.run")
+    st = ctx.stmt_of(run, sweeps[0].node)
+    names = [t.id for t in (st.targets[0].elts if isinstance(st, ast.Assign) and isinstance(st.targets[0], ast.Tuple) else (st.targets if isinstance(st, ast.Assign) else [])) if isinstance(t, ast.Name)]
+    if not names:
+        raise AnalysisError("C05.19", "the sweep's result is not bound to locals")
+    us = ctx.fn("HpcSubmitter._update_status", "C05.19")
+    passed = {ctx.src(a) for s in ups for a in list(s.node.args) + [k.value for k in s.node.keywords]}
+    r.check(set(names) <= passed, "every value the sweep returned is handed to _update_status", key_of(run, f"sweep results not forwarded: {sorted(set(names) - passed)}"), run.loc(st),
+            f"_update_status is not given {sorted(set(names) - passed)} returned by _update_completed_jobs: the completions of this round are never recorded", "every job ... has a result recorded ... and the completion flag is set")
+    upn = [n for s in ups for n in ctx.nodes_of(run, s.node)]
+    for a in ctx.nodes_of(run, sweeps[0].node):
+        ok = always_followed_by(ctx, run, a, upn, kinds=NORMAL_KINDS)
+        r.check(ok, "every normal path from the sweep to a return passes _update_status", key_of(run, "return between sweep and status update"), run.loc(st),
+                "HpcSubmitter.run can return normally after _update_completed_jobs() without calling _update_status: the rows were already moved to the consolidated file, so no later round reports them "
+                "as new - their jobs are never marked done and the jobs they block are never released", "every job that is neither blocked forever nor lost ends with a result recorded")
+
+
+@rule(P, "C05.20", "T9", "the submitted / blocked lists a round persists carry the cluster's job records, not the configuration's", min_obligations=3)
+def c05_20(ctx, r):
+    """Cluster._update_job_status copies `blocked_by` from the jobs it is handed.  The cluster's records (models.jobs.Job, from available_jobs)
+    carry the blocker sets already reduced by earlier rounds; the configuration's job (config.get_job(name)) still has the original set.
+    Handing the latter back restores finished blockers, and a job with two blockers that finish in different rounds is never released."""
+    from ..callgraph import PARAM_TYPES
+
+    mb = ctx.fn("HpcSubmitter._make_batch", "C05.20")
+    src_p = mb.params[1]
+    accs = [p for p in mb.params[2:] if PARAM_TYPES.get((mb.short, p)) == ("list", "Job")]
+    if len(accs) < 2:
+        raise AnalysisError("C05.20", f"_make_batch accumulator parameters typed list[Job]: {accs}")
+    feeders, feeder_calls = {}, set()
+    for lp in [x for x in iter_own(mb.node) if isinstance(x, ast.For)]:
+        it = lp.iter
+        if isinstance(it, ast.Call) and isinstance(it.func, ast.Attribute) and it.func.attr == "values" and isinstance(it.func.value, ast.Name) and isinstance(lp.target, ast.Name):
+            if any(isinstance(c, ast.Call) and isinstance(c.func, ast.Attribute) and c.func.attr == "append" and isinstance(c.func.value, ast.Name) and c.func.value.id in accs
+                   and len(c.args) == 1 and isinstance(c.args[0], ast.Name) and c.args[0].id == lp.target.id for c in ast.walk(lp)):
+                feeders[it.func.value.id] = lp.target.id
+                feeder_calls.update(id(c) for c in ast.walk(lp) if isinstance(c, ast.Call))
+    n = 0
+
+    def is_cluster_job(e):
+        t = ctx.ty.expr_type(mb, e)
+        return type_is(ctx, t, "Job")
+
+    for x in iter_own(mb.node):
+        if isinstance(x, ast.Call) and isinstance(x.func, ast.Attribute) and x.func.attr == "append" and isinstance(x.func.value, ast.Name) and x.func.value.id in accs and len(x.args) == 1:
+            if id(x) in feeder_calls:
+                continue
+            n += 1
+            r.check(is_cluster_job(x.args[0]), f"{x.func.value.id}.append(...) adds a cluster job record", key_of(mb, f"{x.func.value.id} receives {ctx.src(x.args[0])}"), mb.loc(x),
+                    f"`{ctx.src(x)}` puts `{ctx.src(x.args[0])}` (not a cluster Job record from `{src_p}`) on the list persisted by update_job_status: its blocked_by / state are the configuration's, "
+                    "so blockers removed by earlier rounds come back", "every job that is neither blocked forever nor lost ends with a result")
+        if isinstance(x, ast.Assign) and len(x.targets) == 1 and isinstance(x.targets[0], ast.Subscript) and isinstance(x.targets[0].value, ast.Name) and x.targets[0].value.id in feeders:
+            n += 1
+            r.check(is_cluster_job(x.value), f"{x.targets[0].value.id}[...] holds a cluster job record", key_of(mb, f"{x.targets[0].value.id} receives {ctx.src(x.value)}"), mb.loc(x),
+                    f"`{ctx.src(x)}` stores `{ctx.src(x.value)}` - the configuration's job, not the cluster's record from `{src_p}` - in the map whose values are persisted as this round's blocked jobs: "
+                    "update_job_status copies its *original* blocked_by back, restoring blockers that earlier rounds had removed; a job whose blockers finish in different rounds is never submitted",
+                    "every job that is neither blocked forever nor lost ends with a result")
+    if n < 2:
+        raise AnalysisError("C05.20", f"{n} stores into the persisted lists recognised in _make_batch")
+    r.ok(f"accumulators {accs}, fed through {sorted(feeders)}")
